@@ -179,7 +179,8 @@ TReachFrom(M, frontier, seen) ==
            goals == {<<k[1], k[2]>> : k \in {k \in new : k[3] = "goal"}}
        IN TReachFrom(M, goals \ {<<k[1], k[2]>> : k \in {k \in seen : k[3] = "goal"}}, seen \cup new)
 
-TReadKeys(M, t, r) == {<<k[1], k[2]>> : k \in {k \in TReachFrom(M, {<<t, r>>}, {<<t, r, "goal">>}) : k[3] = "read"}}
+TGoalKeys(M, t, r) == {<<k[1], k[2]>> : k \in {k \in TReachFrom(M, {<<t, r>>}, {<<t, r, "goal">>}) : k[3] = "goal"}}
+TReadKeys(M, t, r) =={<<k[1], k[2]>> : k \in {k \in TReachFrom(M, {<<t, r>>}, {<<t, r, "goal">>}) : k[3] = "read"}}
 
 \* Some conditional tuple that cannot be evaluated under ctx belongs to a
 \* <<type, relation>> the evaluation of (o, r) may read.
